@@ -123,7 +123,7 @@ def gen(ctx):
     for cont in strconts:
         sup = list(M.STR_SUPPORT[cont])
         for L in STR_LENS[cont]:
-            for rep in range(4 if not thorough else 16):
+            for rep in range(4 if not thorough else 40):
                 tys = rng.sample(sup, min(3, len(sup)))
                 big = tys[rng.randrange(len(tys))]
                 sets = []
@@ -176,7 +176,7 @@ def gen(ctx):
     for cont in ("wav", "wavex", "rifx"):
         for n in [0, 1, 2, 3, 10, 50, 99, 100] + ([101, 500, 2500] if thorough else []):
             add("cue-%s-%d" % (cont, n), "cues", cont, [M.setcues_line("h0", cues(rng, n))])
-    for n in [0, 1, 2, 3, 10, 50, 100]:
+    for n in [0, 1, 2, 3, 10, 50, 100] + ([101, 1000, 2500] if thorough else []):
         add("cue-aiff-%d" % n, "cues", "aiff", [M.setcues_line("h0", cues(rng, n, names=True))])
     # 5. instrument
     for cont in ("wav", "wavex", "rifx"):
@@ -187,7 +187,7 @@ def gen(ctx):
                          ("wavex", 6, (2, 3, 4, 7, 5, 6)), ("caf", 6, (2, 3, 4, 7, 5, 6)), ("wav", 2, (2, 3)), ("caf", 2, (3, 4)), ("wavex", 2, (0, 1)), ("wavex", 2, (2, 99))):
         add("chmap-%s-%s" % (cont, "_".join(map(str, mp))), "chmap", cont, [chmap_cmd(mp), S(1, b"T")], ch=ch)
     # 7. several items in one header, random order
-    for rep in range(120 if not thorough else 1000):
+    for rep in range(120 if not thorough else 5000):
         cont = rng.choice(["wav", "wav", "wavex", "rf64", "rifx", "aiff", "caf"])
         sets = [S(ty, text(rng, rng.choice([1, 2, 9, 100, 255]), ascii_only=(cont == "aiff" and ty in (2, 3)))) for ty in rng.sample(list(M.STR_TYPES), rng.randrange(1, 6))]
         if cont in M.BEXT_SUPPORT and rng.random() < 0.7:
